@@ -281,16 +281,18 @@ TIGER_LAYOUTS = [dict(), dict(nt_order='pre'), dict(nt_order='rev'), dict(edge_o
 OPTION_SETS = {
     'export': [{}, {'continuous': True}, {'gf_split': True}, {'gf_split': True, 'gf_separator': '#'},
                {'replace_parens': True}, {'gz': True}, {'enc': 'latin-1'}, {'enc': 'utf-16'},
-               {'continuous': True, 'gf_split': True, 'replace_parens': True}, {'gz': True, 'enc': 'latin-1'}],
+               {'continuous': True, 'gf_split': True, 'replace_parens': True}, {'gz': True, 'enc': 'latin-1'},
+               {'gz': 'members'}],
     'brackets': [{}, {'gf_split': True}, {'gf_split': True, 'gf_separator': '#'}, {'replace_parens': True},
                  {'brackets_firstid': 17}, {'brackets_firstid': 0}, {'brackets_emptypos': True}, {'gz': True}, {'enc': 'latin-1'},
                  {'enc': 'utf-16'}, {'noquiet': True}, {'brackets_firstid': 5, 'gf_split': True, 'replace_parens': True},
-                 {'gz': True, 'enc': 'latin-1'}],
-    'discobrackets': [{}, {'disco_reordered': True}, {'gf_split': True}, {'brackets_firstid': 9}, {'gz': True},
+                 {'gz': True, 'enc': 'latin-1'}, {'gz': 'members', 'enc': 'utf-16'}],
+    'discobrackets': [{}, {'disco_reordered': True}, {'gf_split': True}, {'brackets_firstid': 9}, {'gz': True}, {'gz': 'members'},
                       {'replace_parens': True}, {'brackets_firstid': 0, 'disco_reordered': True}],
     'tigerxml': [{}, {'continuous': True}, {'gf_split': True}, {'gf_split': True, 'gf_separator': '#'},
                  {'replace_parens': True}, {'gz': True}, {'enc': 'latin-1'}, {'enc': 'utf-16'}, {'noquiet': True},
-                 {'continuous': True, 'gf_split': True, 'replace_parens': True}, {'gz': True, 'enc': 'utf-16'}],
+                 {'continuous': True, 'gf_split': True, 'replace_parens': True}, {'gz': True, 'enc': 'utf-16'},
+                 {'gz': 'members', 'enc': 'latin-1'}],
 }
 PAREN = [('(', 'LRB'), ('-LRB-', 'LRB'), ('[', 'LSB'), ('-LSB-', 'LSB'), ('{', 'LCB'), ('-LCB-', 'LCB'),
          (')', 'RRB'), ('-RRB-', 'RRB'), (']', 'RSB'), ('-RSB-', 'RSB'), ('}', 'RCB'), ('-RCB-', 'RCB')]
@@ -383,7 +385,13 @@ def write_file(fmt, text, opts, binary_enc):
     name = {'export': 'c.export', 'brackets': 'c.mrg', 'discobrackets': 'c.dbr', 'tigerxml': 'c.xml'}[fmt]
     path = os.path.join(scratch(), name + ('.gz' if opts.get('gz') else ''))
     data = text.encode(binary_enc)
-    if opts.get('gz'):
+    if opts.get('gz') == 'members':
+        # a multi-member gzip file (what `cat a.gz b.gz`, pigz -i or bgzip produce): three members cut at arbitrary bytes
+        cut = [0, len(data) // 3, 2 * len(data) // 3, len(data)]
+        with open(path, 'wb') as f:
+            for a, b in zip(cut, cut[1:]):
+                f.write(gzip.compress(data[a:b]))
+    elif opts.get('gz'):
         with gzip.open(path, 'wb') as f:
             f.write(data)
     else:
